@@ -58,11 +58,11 @@ from pysph.base.nnps import DomainManager, LinkedListNNPS
 cfg, arrays, box = %(cfg)r, %(arrays)r, %(box)r
 pas = []
 for i, a in enumerate(arrays):
-    pa = get_particle_array(name="a%%d" %% i, x=a["x"], y=a["y"], z=[0.0]*len(a["x"]), u=a["u"], v=a["v"], w=[0.0]*len(a["x"]), h=a["h"], m=a["m"])
+    pa = get_particle_array(name="a%%d" %% i, x=a["x"], y=a["y"], z=a["z"], u=a["u"], v=a["v"], w=a["w"], h=a["h"], m=a["m"])
     pa.add_property("uid", type="int"); pa.uid[:] = [100*i + k for k in range(len(a["x"]))]
     pas.append(pa)
-kw = dict(xmin=box[0], xmax=box[1], ymin=box[2], ymax=box[3], n_layers=cfg["n_layers"])
-for ax in "xy":
+kw = dict(xmin=box[0], xmax=box[1], ymin=box[2], ymax=box[3], zmin=box[4], zmax=box[5], n_layers=cfg["n_layers"])
+for ax in "xyz":
     kw["periodic_in_" + ax] = ax in cfg["periodic"]
     kw["mirror_in_" + ax] = ax in cfg["mirror"]
 dom = DomainManager(**kw)
@@ -70,26 +70,28 @@ nn = LinkedListNNPS(dim=cfg["dim"], particles=pas, radius_scale=2.0, domain=dom)
 from vf.props.c07 import expected_images_concrete
 bad = None
 cell = 2.0*max(max(a["h"]) for a in arrays)*cfg["n_layers"]
+rnd = lambda t: tuple(round(float(q), 9) for q in t)
 for rep in range(2):
     if rep: nn.update_domain()
     for i, pa in enumerate(pas):
         n = len(arrays[i]["x"])
         tag = pa.get("tag", only_real_particles=False)
         get = lambda p: pa.get(p, only_real_particles=False)
-        reals = [(int(get("uid")[k]), float(get("x")[k]), float(get("y")[k])) for k in range(len(tag)) if tag[k] == 0]
-        ghosts = sorted((int(get("uid")[k]), round(float(get("x")[k]), 9), round(float(get("y")[k]), 9), round(float(get("u")[k]), 9), round(float(get("v")[k]), 9)) for k in range(len(tag)) if tag[k] == 2)
-        exp = sorted(expected_images_concrete(cfg, box, cell, reals, dict((int(get("uid")[k]), (float(get("u")[k]), float(get("v")[k]))) for k in range(len(tag)) if tag[k] == 0)))
+        reals = [(int(get("uid")[k]),) + tuple(float(get(c)[k]) for c in "xyz") for k in range(len(tag)) if tag[k] == 0]
+        ghosts = sorted((int(get("uid")[k]),) + rnd(get(c)[k] for c in "xyzuvw") for k in range(len(tag)) if tag[k] == 2)
+        exp = sorted(expected_images_concrete(cfg, box, cell, reals, dict((int(get("uid")[k]), tuple(float(get(c)[k]) for c in "uvw")) for k in range(len(tag)) if tag[k] == 0)))
         print("update", rep + 1, "array", i, "real", reals, "ghosts", ghosts, "expected", exp)
         if len(reals) != n:
             bad = "array %%d has %%d real particles after update %%d (expected %%d)" %% (i, len(reals), rep + 1, n)
-        for (uid, x, y) in reals:
-            k = uid - 100*i
-            for ax, got, orig, lo, hi in (("x", x, arrays[i]["x"][k], box[0], box[1]), ("y", y, arrays[i]["y"][k], box[2], box[3])):
+        for rec in reals:
+            k = rec[0] - 100*i
+            for j, ax in enumerate("xyz"):
+                got, orig, lo, hi = rec[1 + j], arrays[i][ax][k], box[2*j], box[2*j + 1]
                 if ax in cfg["periodic"]:
                     L = hi - lo
                     if not (lo - 1e-9*L <= got <= hi + 1e-9*L) or min(abs(got - orig - s*L) for s in (-1, 0, 1)) > 1e-9*L:
                         bad = "array %%d particle %%d: %%s=%%r after the update (was %%r, box [%%r, %%r])" %% (i, k, ax, got, orig, lo, hi)
-                elif ax in "xy"[:cfg["dim"]] and abs(got - orig) > 1e-12*(1 + abs(orig)):
+                elif abs(got - orig) > 1e-12*(1 + abs(orig)):
                     bad = "array %%d particle %%d: %%s changed from %%r to %%r" %% (i, k, ax, orig, got)
         if ghosts != exp:
             bad = "array %%d update %%d: ghosts %%r, documented images %%r" %% (i, rep + 1, ghosts, exp)
@@ -100,34 +102,33 @@ sys.exit(common.replay_exit(bad))
 def expected_images_concrete(cfg, box, cell, reals, vel):
     """documented images for concrete data (used by the replay)"""
     out = []
-    xmin, xmax, ymin, ymax = box
-    for (uid, x, y) in reals:
-        u, v = vel[uid]
+    for rec in reals:
+        uid, pos = rec[0], rec[1:4]
+        uvw = vel[uid]
         opts = []
-        for ax, c, lo, hi in (("x", x, xmin, xmax), ("y", y, ymin, ymax)):
+        for j, ax in enumerate("xyz"):
+            lo, hi = box[2 * j], box[2 * j + 1]
             o = [0]
             if ax in cfg["periodic"] or ax in cfg["mirror"]:
-                if c - lo <= cell:
+                if pos[j] - lo <= cell:
                     o.append(+1)
-                if hi - c <= cell:
+                if hi - pos[j] <= cell:
                     o.append(-1)
             opts.append(o)
-        for sx in opts[0]:
-            for sy in opts[1]:
-                if sx == 0 and sy == 0:
-                    continue
+        for combo in itertools.product(*opts):
+            if not any(combo):
+                continue
+            p, q = [], []
+            for j, s_ in enumerate(combo):
+                lo, hi = box[2 * j], box[2 * j + 1]
                 if cfg["periodic"]:
-                    out.append((uid, round(x + sx * (xmax - xmin), 9),
-                                round(y + sy * (ymax - ymin), 9),
-                                round(u, 9), round(v, 9)))
+                    p.append(pos[j] + s_ * (hi - lo))
+                    q.append(uvw[j])
                 else:
-                    nx = x if sx == 0 else (2 * xmin - x if sx == 1
-                                            else 2 * xmax - x)
-                    ny = y if sy == 0 else (2 * ymin - y if sy == 1
-                                            else 2 * ymax - y)
-                    out.append((uid, round(nx, 9), round(ny, 9),
-                                round(-u if sx else u, 9),
-                                round(-v if sy else v, 9)))
+                    p.append(pos[j] if s_ == 0 else (
+                        2 * lo - pos[j] if s_ == 1 else 2 * hi - pos[j]))
+                    q.append(-uvw[j] if s_ else uvw[j])
+            out.append((uid,) + tuple(round(v, 9) for v in p + q))
     return out
 
 
@@ -148,20 +149,21 @@ def unit_domain(cfg, layout, deadline_s=200, timeout_ms=20000):
     findings = common.load_findings(PID)
     ncex = [0]
     dim = cfg["dim"]
-    axes = "xy"[:dim]
+    axes = "xyz"[:dim]
+    VEL = {"x": "u", "y": "v", "z": "w"}
 
     def run(c):
-        box = dict(xmin=real("xmin"), xmax=real("xmax"), ymin=real("ymin"),
-                   ymax=real("ymax"))
-        c.assume_unchecked(box["xmax"].t > box["xmin"].t)
-        if dim > 1:
-            c.assume_unchecked(box["ymax"].t > box["ymin"].t)
+        box = dict((ax + e, real(ax + e)) for ax in "xyz"
+                   for e in ("min", "max"))
+        for ax in axes:
+            c.assume_unchecked(box[ax + "max"].t > box[ax + "min"].t)
         pas, init = [], []
         hs = []
         for a, n in enumerate(layout):
             vals = {}
             for k in VALS:
-                if k in ("z", "w") or (dim == 1 and k in ("y", "v")):
+                if (dim < 3 and k in ("z", "w")) or \
+                        (dim == 1 and k in ("y", "v")):
                     vals[k] = [0.0] * n
                 else:
                     vals[k] = [real("%s%d_%d" % (k, a, i)) for i in range(n)]
@@ -194,7 +196,9 @@ def unit_domain(cfg, layout, deadline_s=200, timeout_ms=20000):
                         c.assume_unchecked(z3.And(v.t >= lo, v.t <= hi))
         kw = dict(xmin=box["xmin"], xmax=box["xmax"],
                   ymin=box["ymin"] if dim > 1 else 0.0,
-                  ymax=box["ymax"] if dim > 1 else 0.0, zmin=0.0, zmax=0.0,
+                  ymax=box["ymax"] if dim > 1 else 0.0,
+                  zmin=box["zmin"] if dim > 2 else 0.0,
+                  zmax=box["zmax"] if dim > 2 else 0.0,
                   n_layers=cfg["n_layers"])
         for ax in "xyz":
             kw["periodic_in_" + ax] = ax in cfg["periodic"]
@@ -250,7 +254,7 @@ def unit_domain(cfg, layout, deadline_s=200, timeout_ms=20000):
                         claims.append(xw == x0)
                     pos[ax] = xw
                 # other values untouched
-                for k in ("u", "v", "h", "m"):
+                for k in ("u", "v", "w", "h", "m"):
                     if is_sym(vals[k][i]):
                         claims.append(to_real(r[k][0]) ==
                                       to_real(vals[k][i]))
@@ -271,7 +275,7 @@ def unit_domain(cfg, layout, deadline_s=200, timeout_ms=20000):
                     img = dict(uid=100 * a + i)
                     for (ax, _), s in zip(opts, combo):
                         lo, hi = box[ax + "min"].t, box[ax + "max"].t
-                        vel = {"x": "u", "y": "v"}[ax]
+                        vel = VEL[ax]
                         if cfg["periodic"]:
                             img[ax] = pos[ax] + s * (hi - lo)
                             img[vel] = to_real(r[vel][0])
@@ -368,11 +372,12 @@ def unit_domain(cfg, layout, deadline_s=200, timeout_ms=20000):
             arrays.append(dict((k, [float(model_value(model, to_real(v)))
                                     if is_sym(v) else float(v)
                                     for v in vals[k]])
-                               for k in ("x", "y", "u", "v", "h", "m")))
+                               for k in ("x", "y", "z", "u", "v", "w", "h",
+                                         "m")))
         bx = [float(model_value(model, box[k].t)) for k in
-              ("xmin", "xmax", "ymin", "ymax")]
-        if dim == 1:
-            bx[2], bx[3] = 0.0, 0.0
+              ("xmin", "xmax", "ymin", "ymax", "zmin", "zmax")]
+        for j in range(dim, 3):
+            bx[2 * j], bx[2 * j + 1] = 0.0, 0.0
         p = common.write_replay(PID, "dom_%s_%s_%d" % (
             (cfg["periodic"] or "m" + cfg["mirror"]) + str(dim),
             "x".join(map(str, layout)), ncex[0]),
@@ -429,6 +434,9 @@ def main():
         (dict(dim=2, periodic="xy", mirror="", n_layers=1.0), (1,)),
         (dict(dim=2, periodic="x", mirror="", n_layers=1.0), (1,)),
         (dict(dim=2, periodic="", mirror="xy", n_layers=1.0), (1,)),
+        (dict(dim=3, periodic="xyz", mirror="", n_layers=1.0), (1,)),
+        (dict(dim=3, periodic="", mirror="xyz", n_layers=1.0), (1,)),
+        (dict(dim=3, periodic="z", mirror="", n_layers=1.0), (1,)),
         (dict(dim=1, periodic="x", mirror="", n_layers=1.0, narrow=True),
          (1,)),
     ]
@@ -457,7 +465,7 @@ def main():
         "for which the particle lies within the ghost layer of that face "
         "(periodic: translated copy; mirror: reflected coordinate and "
         "negated normal velocity), all other values copied"]
-    rep.outside = ["GPU domain manager", "in_parallel", "dim 3",
+    rep.outside = ["GPU domain manager", "in_parallel",
                    "copied-property subsets"]
     common.run_units(rep, units)
     return rep.finish()
